@@ -359,7 +359,9 @@ def run_graph(expr, env: Env):
     out = [it.get(k) for k in keys]
     # a partition computed from concrete data only (e.g. the labels of a RangeIndex) comes back as a pandas object
     for i, v in enumerate(out):
-        if isinstance(v, (pd.DataFrame, pd.Series)) and len(v):
+        if isinstance(v, np.generic):
+            out[i] = v.item()  # a scalar computed from concrete data only
+        elif isinstance(v, (pd.DataFrame, pd.Series)) and len(v):
             try:
                 out[i] = env.convert(v)
             except Unsupported:
